@@ -14,6 +14,18 @@ Theorem sites_nonvacuous :
   Nat.leb 20 (count_kind is_ctx_use sites) = true /\ Nat.leb 10 (count_kind is_static sites) = true.
 Proof. vm_compute. repeat split; reflexivity. Qed.
 
+(* the call path of a nested decision evaluation (regenerated): read acquisitions only, and the witness-shaped schedules
+   of the model find no stuck state *)
+Theorem call_path_ok :
+  Nat.leb 8 (List.length call_path) = true /\ forallb (fun x : bool * lockid => negb (fst x)) call_path = true /\ find_stuck call_path = None.
+Proof. vm_compute. repeat split; reflexivity. Qed.
+
+(* the search does find the deadlocks: a write acquisition of a lock that the nested evaluation takes again *)
+Example find_stuck_finds :
+  find_stuck [(false, 8); (true, 6); (false, 5); (false, 6)] = Some [0; 0; 0; 0; 0; 0; 0; 0; 0] /\
+  (exists sched, find_stuck2 [(false, 6); (false, 5); (false, 6)] [(true, 6)] = Some sched).
+Proof. vm_compute. split; [reflexivity|eexists; reflexivity]. Qed.
+
 Lemma eval_locks_read_only : forall l, forallb eval_site_ok l = true ->
   forallb (fun x : bool * lockid => negb (fst x)) (eval_lock_sites l) = true.
 Proof.
@@ -22,7 +34,7 @@ Proof.
   change (eval_lock_sites (s :: r)) with
     ((match skind s with SLock w k => if seval s then [(w, k)] else [] | _ => [] end) ++ eval_lock_sites r)%list.
   rewrite forallb_app. apply andb_true_iff. split; [|exact (IH Hr)].
-  unfold eval_site_ok in Hs. destruct (skind s) as [w k| | | | | | |]; try reflexivity.
+  unfold eval_site_ok in Hs. destruct (skind s) as [w k| | | | | | | |]; try reflexivity.
   destruct (seval s); [|reflexivity]. cbn [forallb fst]. rewrite andb_true_r in Hs. rewrite Hs. reflexivity.
 Qed.
 
